@@ -39,7 +39,7 @@ PASSWORDS = {
     'hello': ('hello world', False),
 }
 
-REPLY_KINDS = ('OK', 'OKA', 'OKS', 'OKE', 'NO', 'NOB', 'AGAIN', 'MORE', 'UNL', 'BLAH')      # NOB: a refusal whose message is empty - the reply is the bare word NO
+REPLY_KINDS = ('OK', 'OKA', 'OKS', 'OKE', 'NO', 'NOB', 'AGAIN', 'MORE', 'UNL', 'BLAH', 'BLAHO', 'BLAHE')      # NOB: a refusal whose message is empty - the reply is the bare word NO
 ACCOUNT_KINDS = ('OKA', 'OKS', 'OKT')      # OK replies that carry an account (OKS: a shorter one without stamp suffix; OKT: followed by free text)
 TAG_KINDS = ('cur', 'old', 'bare', 'trunc', 'noid', 'junk', 'zz', 'wrongserial', 'wideid', 'wideserial')
 # wideid / wideserial: the live tag with 2^32 added to the id / the serial - numbers that denote somebody else, whatever a 32-bit variable makes of them
@@ -59,7 +59,7 @@ def reply_text(kind, i, svc):
     return {
         'OK': 'OK', 'OKA': 'OK %s:7' % account_for(i, svc), 'OKS': 'OK s%d' % (abs(i) % 10), 'OKE': 'OK ', 'OKT': 'OK t%d:5 last seen from 2 other sessions' % (abs(i) % 10),
         'NO': 'NO go away %s from %s' % (i, svc), 'NOB': 'NO', 'AGAIN': 'AGAIN try again %s' % i,
-        'MORE': 'MORE say more %s' % i, 'UNL': None, 'BLAH': 'BLAH what',
+        'MORE': 'MORE say more %s' % i, 'UNL': None, 'BLAH': 'BLAH what', 'BLAHO': 'O operator', 'BLAHE': '',      # BLAHO / BLAHE: a clipped keyword, an empty reply - no answer either
     }[kind]
 
 
@@ -488,7 +488,7 @@ def step(w, M, ev, ctx_pre, new_serial, out_lines, addr_check=True):
         if not awaited:
             stray = True
             W.add('stray-' + ('old' if tagkind == 'old' else 'malformed' if tagkind != 'cur' else ('ghost' if svc not in w.stype else 'notowed')))
-        elif rk == 'BLAH':
+        elif rk.startswith('BLAH'):
             # unrecognised text from an awaited service: not a final answer; the statement is silent about output
             W.add('reply-unrecognised')
         else:
